@@ -182,8 +182,8 @@ PROPS = {
     "C01": _spec("protoburst", _GEN + "12% of the runs are burst runs (a recorded, already judged session delivered again with several lines per read: nothing may follow a verdict that the line-per-read delivery did not have). Non-trivial = at least one verdict (D/R/k) was issued; distinct = distinct SHA-256 of the full command/reply history.",
                  3000, 250000, {"fault_free_every": 8, "p_burst": 0.12},
                  expect_probes=["reannounce_live", "xr_stale", "xr_dup", "hurry_after_softdone", "registered_early", "reply_after_timeout"]),
-    "C02": _spec("proto", _GEN + "Non-trivial = at least one verdict; acceptance conditions are evaluated at every D/R line.",
-                 3000, 250000, {"fault_free_every": 8},
+    "C02": _spec("protoburst", _GEN + "8% of the runs are burst runs, in which a recorded, already judged session is also delivered with all its lines waiting on the channel when the daemon enters its event loop (same treatment required). Non-trivial = at least one verdict; acceptance conditions are evaluated at every D/R line.",
+                 3000, 250000, {"fault_free_every": 8, "p_burst": 0.08},
                  expect_probes=["timer_fire", "timeout_with_query_outstanding", "ok_empty_account", "hurry", "bang_dropped"]),
     "C03": _spec("proto", _GEN + "Non-trivial = at least one verdict; the progress obligation is evaluated for every live client after every step.",
                  3000, 250000, {"fault_free_every": 8},
